@@ -175,6 +175,14 @@ def unit_bs_text(tier, seed):
                             tier, seed, 20000, 300000)
 
 
+def unit_bs_bias(tier, seed):
+    import unit_standin
+    return unit_standin.run('bias_lists', ['bias'], {'C16', 'C01'},
+                            'df_msg1059/1065/1230_biases encode (iterator filter/count closures): same multiset of entries, grouped by ascending satellite, or an error',
+                            tier, seed, 3000, 60000)
+
+
+UNITS['bs_bias'] = unit_bs_bias
 UNITS['text'] = unit_text
 UNITS['bs_text'] = unit_bs_text
 UNITS['bs_msmrows'] = unit_bs_msmrows
@@ -194,6 +202,7 @@ PROPERTY_UNITS['C15'] = ['l2', 'l1int', 'l0bits']
 PROPERTY_UNITS['C14'] = ['msgl3', 'frame']
 PROPERTY_UNITS['C12'] = ['msgl3', 'l0bits']
 PROPERTY_UNITS['C09'] = ['msgl3', 'l2', 'l1int', 'l1enc', 'bs_msgs', 'l0bits']
+PROPERTY_UNITS['C16'] = ['l2', 'bs_bias', 'bs_msgs', 'l0bits']
 PROPERTY_UNITS['C17'] = ['text', 'bs_text', 'l2', 'l0bits']
 PROPERTY_UNITS['C10'] = ['l2', 'sigtab', 'bs_msmrows', 'bs_msgs', 'l0bits']
 PROPERTY_UNITS['C02'] = ['frame', 'msgl3', 'l2', 'l1int', 'l1enc', 'bs_msgs', 'l0bits']
